@@ -93,7 +93,10 @@ pub struct Oracle {
 fn arc_oracle(from: Point, center: Point, radii: Vector, sweep: Angle, rot: Angle) -> Oracle {
     use lyon_path::geom::euclid::approxeq::ApproxEq;
     let skip = from.approx_eq(&center);
-    let start_angle = (from - center).angle_from_x_axis() - rot;
+    // the parameter of the current point on the rotated ellipse (same expression as WithSvg::arc; that the arc then
+    // really ends at the requested point is checked independently below and in C13)
+    let v = lyon_path::math::Rotation::new(-rot).transform_vector(from - center);
+    let start_angle = lyon_path::math::vector(v.x / radii.x, v.y / radii.y).angle_from_x_axis();
     let arc = Arc { center, radii, start_angle, sweep_angle: sweep, x_rotation: rot };
     let start = arc.from();
     let near = (start - from).square_length() < 0.01;
@@ -558,7 +561,21 @@ fn run_seq(id: usize, cmds: &[Cmd], w: &mut ShardWriter, st: &mut Stats, idx: &m
     }
     let mut sem = Sem { cur: point(0.0, 0.0), start: point(0.0, 0.0), open: false, empty: true, q: None, c: None, out: vec![] };
     for (c, o) in cmds.iter().zip(oracles.iter()) {
+        let before = sem.cur;
         sem.step(c, o);
+        // SVG rule for A / a: the arc ends at the requested point (whatever the radii, rotation and flags)
+        let target = match c {
+            Cmd::ArcTo(_, _, _, _, to) => Some(*to),
+            Cmd::RelArcTo(_, _, _, _, v) => Some(before + *v),
+            _ => None,
+        };
+        if let (Some(t), Cmd::ArcTo(r, ..) | Cmd::RelArcTo(r, ..)) = (target, c) {
+            let scale = 1.0 + r.x.abs() + r.y.abs() + (t - before).length();
+            if (sem.cur - t).length() > 4e-3 * scale {
+                st.fail(jobj(&[("what", jstr("after an arc command the current point is not the arc's end point")), ("input", jstr(&format!("{} -> arc from {:?} ends at {:?} instead of {:?}", text, before, sem.cur, t)))]));
+                break;
+            }
+        }
     }
     if sem.open {
         sem.out.push(Call::End(false));
